@@ -602,7 +602,9 @@ def fam_explicit(params, tier, acc):
                     # two fields: every position and lengths up to 3 (one
                     # field strictly enclosing the other)
                     starts = [None] + list(range(-1, L + 1))
-                    lens = (None, "1", "2", "3")
+                    # "autoN": automatic length with the value N given, so
+                    # that the field grows towards its fixed neighbours
+                    lens = (None, "1", "2", "3", "auto3", "auto7")
                 for specs in itertools.product(
                         itertools.product(starts, lens), repeat=n):
                     i += 1
